@@ -92,7 +92,7 @@ class Ctx:
         """Record a violation. params must be JSON-serialisable and sufficient for replay()."""
         self.violations.append(
             {"mechanism": mechanism, "message": str(message)[:2000], "params": params,
-             "hashseed": os.environ.get("PYTHONHASHSEED", "")}
+             "hashseed": os.environ.get("PYTHONHASHSEED", ""), "optimize": int(sys.flags.optimize)}
         )
         if self.replaying:
             return
@@ -207,9 +207,12 @@ def drive(prop, tier, seed):
         env["PYTHONHASHSEED"] = str((seed * 31 + w) % 4294967295)
         env["PYTHONDONTWRITEBYTECODE"] = "1"
         env["VERIF_REPO"] = REPO
+        # one worker in four runs the interpreter with -O (asserts stripped, __debug__ False): the properties do not
+        # depend on the interpreter mode; internal icontract monitors are then off in that worker (evidence only)
         cmd = [
             sys.executable,
             "-B",
+        ] + (["-O"] if w % 4 == 3 else []) + [
             os.path.join(VERIF_DIR, "check.py"),
             prop,
             "--tier",
@@ -377,6 +380,7 @@ def drive(prop, tier, seed):
                         "tier": tier,
                         "seed": seed,
                         "hashseed": v.get("hashseed", ""),
+                        "optimize": v.get("optimize", 0),
                     },
                     f,
                     indent=1,
@@ -405,10 +409,14 @@ def replay(prop, path):
     with open(path, encoding="utf-8") as f:
         rep = json.load(f)
     hs = str(rep.get("hashseed", ""))
-    if hs and os.environ.get("PYTHONHASHSEED", "") != hs and os.environ.get("VERIF_REEXEC") != "1":
-        # reproduce under the same string-hash seed as the worker that observed the violation
-        env = dict(os.environ, PYTHONHASHSEED=hs, VERIF_REEXEC="1")
-        return subprocess.call([sys.executable, "-B"] + sys.argv, env=env)
+    opt = int(rep.get("optimize", 0) or 0)
+    if os.environ.get("VERIF_REEXEC") != "1" and (
+            (hs and os.environ.get("PYTHONHASHSEED", "") != hs) or opt != int(sys.flags.optimize)):
+        # reproduce under the same string-hash seed and interpreter mode as the worker that observed the violation
+        env = dict(os.environ, VERIF_REEXEC="1")
+        if hs:
+            env["PYTHONHASHSEED"] = hs
+        return subprocess.call([sys.executable, "-B"] + (["-O"] if opt else []) + sys.argv, env=env)
     ctx = Ctx(prop, rep.get("tier", "quick"), rep.get("seed", 0), 0, 1, replaying=True)
     mod.replay(ctx, rep["params"])
     if ctx.violations:
